@@ -68,6 +68,8 @@ def make_quoting(spec):
             return False, 'pretty-not-reparsable', [text, type(e).__name__ + ': ' + str(e)[:60]]
         exp = m.rules[0].exp
         got = getattr(exp, 'token', None) if kind == 'token' else getattr(exp, 'pattern', None)
+        if kind == 'pattern' and s == '.' and type(exp).__name__ == 'Dot':
+            return True, 'pretty-ok', None          # /./ is read as the any-character expression
         if got != s:
             return False, 'text-changed', [s, text, got]
         return True, 'pretty-ok', None
@@ -149,7 +151,7 @@ def plan(tier, seed):
     for kind in ('token', 'pattern'):
         for n in ((1, 2) if tier == 'quick' else (1, 2, 3)):
             obs.append(Ob(name=f'Q_{kind}_quoting_len{n}', factory='vt.props.c13:make_quoting', spec={'kind': kind, 'n': n, 'program': kind + '-quoting'},
-                          params=[(f'c{i}', 0, UNI) for i in range(n)], budget=(60 if kind == 'token' else 150) if tier == 'quick' else 1200, group='quoting'))
+                          params=[(f'c{i}', 0, UNI) for i in range(n)], budget=60 if tier == 'quick' else 1200, group='quoting'))
     return {
         'obligations': obs,
         'native': native_checks,
